@@ -26,9 +26,11 @@ BASES = [
     '\ufeffimport os\n\x0cdef f():\n  # c\n  return os\n',
     'class A:\n  def f(self):\n    x = 1\n    def g():\n      return x\n    return g\n  y = 2',
     'async def f():\n    async with a as b:\n        await c\n    return [i async for i in d]\nlambda: (yield)\n',
+    # decorated / async one-line compound statements whose bodies are broken mid-expression
+    '@dec\nasync def foo(): bar.-\n@dec\nclass K: x(\ny = 2\n@a\n@b\ndef g(): return [\nz = 3\n',
 ]
 POOL = ['    x = 1', 'def h():', '  (', ')', '"""', 'else:', '        pass', '@d', 'class K: pass', '\tz', '    return', 'if 1:',
-        "f'{", 'x = [', '# c', '', ' ', 'async def q():', '    \\', 'import a; b']
+        "f'{", 'x = [', '# c', '', ' ', 'async def q():', '    \\', 'import a; b', 'async def r(): s.', '@t']
 
 
 def edits(nlines):
